@@ -11,7 +11,8 @@ the file holds (`Entry.file c`, `c` an abstract content id, or `Entry.subdir`), 
 file writes into the directory and whether it succeeds, what the two gcov readers make of a content
 (`parseGz` = `parse_gcov_gz`, `parseText` = `parse_gcov`; `none` = `Err`), what `parse_lcov`,
 `parse_jacoco_xml_report`, `Gcno::compute` return on a content id, and what
-`llvm_profiles_to_lcov` does (its result and the `grcov.profdata` file it leaves behind).
+`llvm_profiles_to_lcov` does (its result and the `grcov.profdata` file the merge tool writes; the
+function removes that file again before it returns).
 
 Every place of the Rust loop body that can panic is an explicit `StepResult.panic`:
   * `gcno_path.file_name().unwrap()` (a notes path without a final normal component),
@@ -220,16 +221,29 @@ and the others are kept -/
 def parseAll (env : Env) (ls : List Nat) : Results :=
   ls.flatMap fun l => (env.parseLcov l).getD []
 
-/-- the Profdata | Profraw arm -/
+/-- `fs::remove_file` with the error ignored: a regular file of that name goes, a directory of
+that name (or nothing) is left alone -/
+def rmFile (d : Dir) (n : Bytes) : Dir :=
+  match get? d n with
+  | some .subdir => d
+  | _ => erase d n
+
+/-- the Profdata | Profraw arm. `llvm_profiles_to_lcov` merges into `<working_dir>/grcov.profdata`
+and a drop guard removes that file on every way out (success, tool error, panic of
+`find_binaries`): the next notes item of this worker must not find it among gcov's output.
+Without `--binary-path` the item is rejected before the path is even computed. -/
 def stepLlvm (env : Env) (st : WorkerState) (it : ItemType) : WorkerState × StepResult :=
   if !env.hasBinary then (st, .rejected)
   else
     match it with
     | .paths ps =>
       let o := env.llvm ps
-      let st1 : WorkerState := match o.profdata with
-        | some c => { st with dir := set st.dir PROFDATA (.file c) }
-        | none => st
+      -- what the merge tool wrote …
+      let dir1 : Dir := match o.profdata with
+        | some c => if get? st.dir PROFDATA = some .subdir then st.dir else set st.dir PROFDATA (.file c)
+        | none => st.dir
+      -- … is gone when `llvm_profiles_to_lcov` returns or unwinds
+      let st1 : WorkerState := { st with dir := rmFile dir1 PROFDATA }
       match o.res with
       | .panic => (st1, .panic)
       | .err => (st1, .rejected)
